@@ -8,6 +8,7 @@ from ..runner import hyp_run, sha
 
 ID = 'C12'
 LEVEL = 'exploration'
+RULE_FUZZ = ' A coverage-guided byte fuzz step (atheris, same target as C08 in monitor-only mode) adds raw-byte inputs under the same monitor.'
 RULE = ('Modules whose data is hostile to the quoting code: str/bytes constants assembled from quote characters, backslashes, CR/LF, braces, NUL, '
         'string prefixes, triple quotes and payload fragments that would import a canary module if they escaped a literal; placed as plain literals, '
         'f-string literal text, nested str/bytes inside f-string expressions (1-3 levels), format specs, debug-specifier look-alikes, dict keys, and '
@@ -118,3 +119,12 @@ def shard(ctx):
             ctx.fail(dict(c, interp=v), tuple(rep['signature']) + (v,), rep['observed'])
 
     hyp_run(ctx, 'fleet-' + v, wcases(), prop_w, ctx.n(6000, 200000))
+
+
+RULE = RULE + RULE_FUZZ
+
+
+def parent_post(tier, seed, merged):
+    """Coverage-guided byte-level fuzzing (atheris) of minify() under the execution monitor; skipped (and said so) if atheris is missing."""
+    from ..fuzz import driver
+    return driver.run('C12', tier, seed, jobs_quick=8, jobs_thorough=16, runs_quick=4000, runs_thorough=250000)
